@@ -272,6 +272,83 @@ pub fn regime_s<K: Kt>(seed: u64) -> (History, u64) {
     (h, kp)
 }
 
+/// variant X ("extended"): the widths of stored offsets beyond what any affordable history reaches. Between phases
+/// every handle is dropped and the value and/or key file is extended by a hole to just below 2^28, 2^31, 2^32, 2^35,
+/// 2^38, 2^42, 2^45, 2^49, 2^52, 2^56, 2^59 bytes (where the estimated / the stored width of an offset grows by a byte,
+/// and where 32-bit arithmetic on offsets or on offsets/8 wraps); each phase then appends records across that
+/// boundary, overwrites old entries (their value moves behind it, their key record gets a wider offset), deletes,
+/// reads everything back, reopens. The hole stands in for the history that would have grown the file; nothing in
+/// these histories walks the slots of a file. `which`: 0 value file, 1 key file, 2 both.
+pub fn regime_x<K: Kt>(seed: u64, which: usize) -> History {
+    let mut rng = Rng::new(seed ^ 0xB167);
+    let mut seen = std::collections::HashSet::new();
+    let mut keys: Vec<Vec<u8>> = Vec::new();
+    let mut ops: Vec<Op> = Vec::new();
+    let cfg = Cfg { buckets: Buckets::Size([8u64, 1, 64][(seed % 3) as usize]), key: Buf::Size(1 << 20), val: Buf::Size(1 << 20), htx: Buf::Size(1 << 20) };
+    let edge = [10usize, 11, 10, 18, 19, 11, 26, 27, 3, 4, 12, 9, 17, 25, 5, 13];
+    let early = distinct_keys::<K>(&mut rng, &(0..48).map(|j| edge[j % 16]).collect::<Vec<_>>(), &mut seen, &mut keys);
+    for (j, &k) in early.iter().enumerate() {
+        ops.push(Op::Put(k, vs([14u32, 15, 100, 0, 23][j % 5], j as u32)));
+    }
+    let mut all: Vec<usize> = early.clone();
+    let mut e_next = 0usize;
+    for (ph, &bits) in [28u32, 31, 32, 35, 38, 42, 45, 49, 52, 56, 59].iter().enumerate() {
+        let b = 1u64 << bits;
+        // modes 0-2: the appends cross the boundary; 3-5: the first record appended starts exactly on it
+        let (kl, vl) = match which {
+            0 => (0, b - 256),
+            1 => (b - 256, 0),
+            2 => (b - 128, b - 512),
+            3 => (0, b),
+            4 => (b, 0),
+            _ => (b, b),
+        };
+        ops.push(Op::Hole(cfg, kl, vl));
+        let late = distinct_keys::<K>(&mut rng, &(0..14).map(|j| edge[(j + ph) % 16]).collect::<Vec<_>>(), &mut seen, &mut keys);
+        for (j, &k) in late.iter().enumerate() {
+            ops.push(Op::Put(k, vs([100u32, 14, 15, 300][j % 4], (ph * 100 + j) as u32)));
+        }
+        // old entries get longer values: the value moves behind the boundary, the key record gets the wider offset
+        for _ in 0..6 {
+            let k = early[e_next % early.len()];
+            e_next += 1;
+            ops.push(Op::Put(k, vs(120 + 8 * ph as u32, (ph * 1000) as u32 + k as u32)));
+            ops.push(Op::Get(k));
+        }
+        all.extend(late.iter().copied());
+        for j in 0..4 {
+            let k = all[(rng.next() as usize) % all.len()];
+            if j % 2 == 0 {
+                ops.push(Op::Del(k));
+            } else {
+                ops.push(Op::Put(k, vs(22, 7)));
+            }
+        }
+        for &k in late.iter() {
+            ops.push(Op::Get(k));
+        }
+        ops.push(Op::Has(all[(rng.next() as usize) % all.len()]));
+        ops.push(Op::BulkGet(late.iter().copied().take(5).collect()));
+        if ph % 3 == 2 {
+            ops.push(Op::Iter((seed as usize + ph) % 7, usize::MAX));
+            ops.push(Op::Reopen(cfg));
+        }
+        ops.push(Op::Len);
+    }
+    ops.push(Op::Reopen(cfg));
+    for &k in all.iter().step_by(3) {
+        ops.push(Op::Get(k));
+    }
+    ops.push(Op::Iter((seed % 7) as usize, usize::MAX));
+    History {
+        kt: K::NAME.into(),
+        cfg,
+        keys,
+        ops,
+        origin: format!("big regime X (files extended by holes to 2^28 ... 2^59 bytes: {}) seed={seed}", ["value file, crossing", "key file, crossing", "both files, crossing", "value file, exactly on the boundary", "key file, exactly on the boundary", "both files, exactly on the boundary"][which % 6]),
+    }
+}
+
 /// variant C: a log value that grows by one slot step more than a thousand times (every earlier slot ends on the shared
 /// first-fit list, in increasing size order), then requests that only the far end of that list can satisfy
 pub fn regime_c<K: Kt>(seed: u64) -> History {
@@ -375,10 +452,14 @@ pub fn history_for(kt: &str, variant: &str, seed: u64, huge_val: bool) -> Histor
     fn h<K: Kt>(seed: u64, _hv: bool) -> History {
         regime_huge::<K>(seed)
     }
+    fn x<K: Kt>(seed: u64, _hv: bool) -> History {
+        regime_x::<K>(seed, (seed % 6) as usize)
+    }
     match variant {
         "A" => with_kt!(kt, a(seed, huge_val)),
         "B" => with_kt!(kt, b(seed, huge_val)),
         "C" => with_kt!(kt, c(seed, huge_val)),
+        "X" => with_kt!(kt, x(seed, huge_val)),
         _ => with_kt!(kt, h(seed, huge_val)),
     }
 }
@@ -506,23 +587,31 @@ pub fn run(a: &Args) -> Ctx {
     // reads that belong to other properties: a wrong answer there would end the history as somebody else's finding
     // before the monitor of this property has had its turn (reads_of_others)
     let all_reads = matches!(prop, "C01" | "C07" | "C08" | "C09" | "C10");
+    // shard -> (variant, key type)
+    let typed_only = prop == "C10";
+    let kts: &[&str] = if typed_only { &["u64", "string", "vu64", "i64"] } else { &["bytes", "string", "u64", "vu64", "bytes", "i64"] };
+    // X (files extended by holes) only where no monitor walks the slots of a file
+    let with_x = matches!(a.get("as").unwrap_or("C01"), "C01" | "C02" | "C04" | "C07" | "C08" | "C10");
+    let variants: &[&str] = if a.get_u64("huge", 0) == 1 {
+        &["H"]
+    } else if with_x {
+        &["A", "S", "C", "B", "X", "X", "X", "A"]
+    } else {
+        &["A", "S", "C", "B"]
+    };
+    let variant = variants[a.shard % variants.len()];
     // (the 4 GiB image is not decoded: the decoder works on an in-memory copy)
     let huge = a.get_u64("huge", 0) == 1;
     let mon = Mon {
         get_after_put: all_reads,
-        decode_at_sync: !huge,
+        decode_at_sync: !huge && variant != "X",
         iterate_at_sync: matches!(prop, "C04" | "C08" | "C10"),
         stats_at_sync: prop == "C17",
         full_compare_at_reopen: true,
         final_sweep: all_reads,
-        decode_at_close: !huge,
+        decode_at_close: !huge && variant != "X",
         ..Default::default()
     };
-    // shard -> (variant, key type)
-    let typed_only = prop == "C10";
-    let kts: &[&str] = if typed_only { &["u64", "string", "vu64", "i64"] } else { &["bytes", "string", "u64", "vu64", "bytes", "i64"] };
-    let variants: &[&str] = if a.get_u64("huge", 0) == 1 { &["H"] } else { &["A", "S", "C", "B"] };
-    let variant = variants[a.shard % variants.len()];
     let mut kt = kts[(a.shard + a.shard / variants.len() + a.seed as usize) % kts.len()];
     if variant == "A" && a.shard % 8 == 0 {
         // the first shard always takes a byte-string key type: only those have the long keys
@@ -541,7 +630,8 @@ pub fn run(a: &Args) -> Ctx {
     } else {
         history_for(kt, variant, a.shard_seed(), huge_val)
     };
-    if prop == "C07" {
+    if prop == "C07" && variant != "X" {
+        // (X keeps its fixed 1-MiB buffers: a buffer sized in proportion to a 2^59-byte file is not a setting anyone can use)
         let mut r = Rng::new(a.shard_seed() ^ 0xC07);
         let keep = h.cfg.buckets;
         h.cfg = Cfg::random(&mut r, false);
